@@ -5,8 +5,12 @@ place a path forks is SymBool.__bool__ (and SymInt.__index__, which forks over
 the feasible values).  At the end of a path the harness returns the property
 as a z3 term P; the query PC /\\ not P is discharged.
 """
+import os
 import time
 import z3
+
+_DUMPQ = os.environ.get('SEA_DUMPQ')          # development aid: dump slow queries as SMT-LIB2
+_DUMPQ_MIN = float(os.environ.get('SEA_DUMPQ_MIN', '0.2'))
 
 
 class SeaControl(BaseException):
@@ -66,7 +70,7 @@ class Explorer:
         self.prefix = list(prefix or [])
         self.stack = [[d, False] for d in self.prefix]
         self.pos = 0
-        self.solver = z3.Solver()
+        self.solver = z3.SimpleSolver() if os.environ.get("SEA_SOLVER", "simple") == "simple" else z3.Solver()
         self.timeout_ms = timeout_ms
         self.solver.set('timeout', timeout_ms)
         self.stats = Stats()
@@ -77,6 +81,7 @@ class Explorer:
         self.cut_prefixes = []
         self.max_cex = max_cex
         self.max_paths = max_paths
+        self.cached_model = None
         self.cex = []          # list of dicts (already described)
         self.witnesses = {}    # name -> described model
         self.wanted_witnesses = set()
@@ -97,10 +102,21 @@ class Explorer:
         self.stats.queries += 1
         if r == z3.unknown:
             self.stats.unknown += 1
+        if _DUMPQ and dt > _DUMPQ_MIN:
+            try:
+                s2 = z3.Solver()          # never touch the state of the deciding solver
+                s2.add(self.solver.assertions())
+                for e in extra:
+                    s2.add(e)
+                with open(os.path.join(_DUMPQ, 'q%d_%06d_%s_%dms.smt2' % (os.getpid(), self.stats.queries, r, dt * 1000)), 'w') as f:
+                    f.write(s2.to_smt2())
+            except Exception:
+                pass
         return r
 
     def start_path(self):
         self.pos = 0
+        self.cached_model = None
         self.solver.reset()
         self.solver.set('timeout', self.timeout_ms)
         self.pc = []
@@ -116,6 +132,17 @@ class Explorer:
             return
         self.solver.add(e)
         self.pc.append(e)
+        self._keep_model_if(e)
+
+    def _keep_model_if(self, c):
+        """the cached model stays valid only if it satisfies the new constraint"""
+        m = self.cached_model
+        if m is not None:
+            try:
+                if not z3.is_true(m.eval(c, model_completion=True)):
+                    self.cached_model = None
+            except z3.Z3Exception:
+                self.cached_model = None
 
     def assume_checked(self, e):
         """assume + make sure the path stays feasible"""
@@ -137,20 +164,50 @@ class Explorer:
                 raise Cut()
             if self.pos >= self.max_decisions:
                 raise Budget('more than %d decisions on one path' % self.max_decisions)
-            r1 = self.check(e)
-            if r1 == z3.unsat:
-                d, pend = False, False
-            else:
-                r2 = self.check(z3.Not(e))
-                if r2 == z3.unsat:
-                    d, pend = True, False
+            # a model of the current path (kept from the last sat answer) tells
+            # which side is certainly feasible: only the other side is queried
+            known = None
+            m = self.cached_model
+            if m is not None:
+                try:
+                    v = m.eval(e, model_completion=True)
+                    if z3.is_true(v):
+                        known = True
+                    elif z3.is_false(v):
+                        known = False
+                except z3.Z3Exception:
+                    known = None
+            if known is None:
+                r1 = self.check(e)
+                if r1 == z3.sat:
+                    m_true = self.solver.model()
+                    r2 = self.check(z3.Not(e))
+                    if r2 == z3.unsat:
+                        d, pend = True, False
+                    else:
+                        d, pend = True, True
+                    self.cached_model = m_true
+                elif r1 == z3.unsat:
+                    d, pend = False, False
                 else:
+                    # unknown: explore both sides (soundness is kept by the
+                    # final queries; `unknown` is counted in the statistics)
                     d, pend = True, True
+                    self.cached_model = None
+            else:
+                other = z3.Not(e) if known else e
+                r = self.check(other)
+                if r == z3.unsat:
+                    d, pend = known, False
+                else:
+                    # take the side the cached model satisfies first
+                    d, pend = known, True
             self.stack.append([d, pend])
         self.pos += 1
         c = e if d else z3.Not(e)
         self.solver.add(c)
         self.pc.append(c)
+        self._keep_model_if(c)
         return d
 
     def next_path(self):
@@ -229,10 +286,10 @@ class Explorer:
             m = self.solver.model() if r == z3.sat else None
             if len(self.kept_queries) < self.keep_queries or dt > 5.0:
                 try:
-                    self.solver.push()
-                    self.solver.add(z3.Not(p))
-                    self.kept_queries.append((str(r), round(dt, 2), self.solver.to_smt2()))
-                    self.solver.pop()
+                    s2 = z3.Solver()
+                    s2.add(self.solver.assertions())
+                    s2.add(z3.Not(p))
+                    self.kept_queries.append((str(r), round(dt, 2), s2.to_smt2()))
                 except Exception:
                     pass
             if r == z3.sat:
